@@ -93,7 +93,12 @@ def stNode (spec : String) (init refill : Int) : Option Node :=
       | .batch c n s => .batch (withCfg init refill c) n s
       | nd => nd
 
-def parseEv (tasks : List (Nat × Val)) (nd : Node) (s : String) : Option Ev :=
+def outstOf : Node → List (Nat × Val)
+  | .pmap _ _ _ _ _ s => s.outst
+  | _ => []
+
+def parseEv (nd : Node) (s : String) : Option Ev :=
+  let tasks := outstOf nd
   let rest := (s.drop 1).toString
   match s.front with
   | 'r' => rest.toInt?.map (fun n => Ev.up (.req n))
@@ -119,27 +124,24 @@ def panicStop : Node → Node
   | .pmap o w k b e s => .pmap o w k b e { s with alive := false }
   | .sink c s => .sink c s.shutdown
 
-def runSt (wired : Bool) (nd : Node) (tasks : List (Nat × Val)) : List String → List String → Option (List String)
+def runSt (wired : Bool) (nd : Node) : List String → List String → Option (List String)
   | [], acc => some acc.reverse
   | e :: es, acc =>
     if !nd.alive then
-      runSt wired nd tasks es ((if acc.any (·.startsWith "PANIC") then "dead{-}" else "dead{" ++ fmtState nd ++ "}") :: acc)
+      runSt wired nd es ((if acc.any (·.startsWith "PANIC") then "dead{-}" else "dead{" ++ fmtState nd ++ "}") :: acc)
     else if e = "w" then
       let r := nd.step .wire
-      runSt true r.1 (tasks ++ r.2.tasks) es (render r.2 r.1 :: acc)
+      runSt true r.1 es (render r.2 r.1 :: acc)
     else
-    match parseEv tasks nd e with
+    match parseEv nd e with
     | none => none
     | some ev =>
         let r := nd.step ev
         if !wired && !(r.2.down.isEmpty && r.2.up.isEmpty && r.2.tasks.isEmpty) then
           let nd' := panicStop r.1
-          runSt wired nd' tasks es ("PANIC{-}" :: acc)
+          runSt wired nd' es ("PANIC{-}" :: acc)
         else
-        let tasks1 := match ev with
-          | .result q _ => tasks.filter (fun t => t.1 != q)
-          | _ => tasks
-        runSt wired r.1 (tasks1 ++ r.2.tasks) es (render r.2 r.1 :: acc)
+        runSt wired r.1 es (render r.2 r.1 :: acc)
 
 def modelSt (line : String) : String :=
   match line.splitOn "|" with
@@ -154,7 +156,7 @@ def modelSt (line : String) : String :=
         | none => "bad-case"
         | some nd =>
           let w : Node × Out := if late then (nd, {}) else nd.step .wire
-          match runSt (!late) w.1 w.2.tasks (words evs) [render w.2 w.1] with
+          match runSt (!late) w.1 (words evs) [render w.2 w.1] with
           | some outs => " ".intercalate outs
           | none => "bad-case"
       | _, _ => "bad-case"
